@@ -64,6 +64,7 @@ pub struct Scen {
 	pub unw: Vec<usize>, // threads whose whole history runs inside a destructor while the thread unwinds
 	pub sched: bool,
 	pub wp: bool,
+	pub ra: bool,
 	pub schedule: Vec<usize>,
 	pub pct: Option<(Vec<usize>, Vec<usize>)>, // priority scheduling: thread priorities (highest first), demotion steps
 	pub hist: Vec<(usize, Op)>,
@@ -168,6 +169,9 @@ pub fn parse(lines: &[String]) -> Scen {
 					sc.fp.push((us(t[i]), Rop::parse(t[i + 1])));
 					i += 2;
 				}
+			}
+			"ra" => {
+				sc.ra = true;
 			}
 			"mode" => {
 				if t[1] == "sched" {
@@ -515,6 +519,7 @@ pub fn build_world(sc: &Scen) -> World {
 		c.fp = sc.fp.clone();
 		c.sched = sc.sched;
 		c.wp = sc.wp;
+		c.ra = sc.ra;
 	}
 	// address ranks over leaves and owned units
 	let mut all: Vec<(usize, bool, usize)> = vec![];
